@@ -2,6 +2,7 @@
 the harness knows because it *is* the environment (what was sent, what was tampered with, what the
 server tables contained at the moment of the closed notification).  One JSON object per run; the
 TLA+ observer spec/MailboxObs.tla evaluates the properties on it."""
+import os
 import unicodedata
 
 from .mbconf import _verdict_name
@@ -27,12 +28,19 @@ class Tracker:
         world._deliver = self._deliver_hook
         self._orig_handle = world.server.handle
         world.server.handle = self._handle_hook
+        world.tracker_hook = self._hook
+
+    def _hook(self, what, cl):
+        if what == "reent_close":
+            self.cl[cl.name]["triggers"].append(("app", self.saw_peer(cl.name)))
 
     # -- ground truth about frames ----------------------------------------------------------------
     def _handle_hook(self, conn, msg):
         name = conn.client.name
         if msg.get("type") == "open":
             self.cl[name]["ever_opened"] = True
+        if msg.get("type") == "claim":
+            self.cl[name].setdefault("known_np", set()).add(msg.get("nameplate"))
         if msg.get("type") == "close":
             self.cl[name]["close_frames"].append(msg.get("mood"))
         return self._orig_handle(conn, msg)
@@ -58,6 +66,8 @@ class Tracker:
         cl = conn.client
         st = self.cl[name]
         t = msg.get("type")
+        if t == "allocated":
+            st.setdefault("known_np", set()).add(msg.get("nameplate"))
         if t == "welcome" and "error" in msg.get("welcome", {}):
             st["triggers"].append(("welcome", self.saw_peer(name)))
         elif t == "error":
@@ -149,7 +159,11 @@ class Tracker:
                 for l in mb.get("listeners", []):
                     if l.client is cl:
                         listening = True
-        return {"claimed": srv.side_has_claim(cl.appid, cl.side), "up": conn is not None,
+        # a nameplate the server allocated but whose `allocated` reply never reached the client is not a
+        # claim the client knows about (DESIGN 3.1)
+        known = self.cl[cl.name].get("known_np", set())
+        claimed = any(np["sides"].get(cl.side) for n, np in srv.app(cl.appid)["nameplates"].items() if n in known)
+        return {"claimed": claimed, "up": conn is not None,
                 "everOpened": self.cl[cl.name]["ever_opened"], "closedMood": closed_mood, "listening": listening}
 
     # -- the record -------------------------------------------------------------------------------
@@ -248,8 +262,16 @@ class Tracker:
 
 
 def describe_exc(e):
+    """Stable description: type, innermost frame (file:function) and message."""
     if isinstance(e, BaseException):
-        return "%s(%s)" % (type(e).__name__, str(e)[:120])
+        where = ""
+        tb = e.__traceback__
+        while tb is not None and tb.tb_next is not None:
+            tb = tb.tb_next
+        if tb is not None:
+            co = tb.tb_frame.f_code
+            where = "@%s:%s" % (os.path.basename(co.co_filename), co.co_name)
+        return "%s%s(%s)" % (type(e).__name__, where, str(e)[:120])
     return str(e)[:160]
 
 
